@@ -43,7 +43,12 @@ func (w *waitGroup[T]) Add(elements ...T) {
 	for _, element := range elements {
 		if !w.pendingElements.Add(element) {
 			verifWaitGroupAddDuplicate()
-			w.pendingElementsCounter.Add(-1)
+
+			// a concurrent Done may have removed the element (and every other one) in the meantime: then this
+			// correction is the decrement that brings the counter to 0 and has to trigger like the one in Done
+			if w.pendingElementsCounter.Add(-1) == 0 {
+				w.Trigger()
+			}
 		}
 	}
 }
